@@ -24,8 +24,8 @@ case "$ID" in
   C14|C15) PKG=ref_schema; KIND=ref ;;
   C19|C20) PKG=ref_sql; KIND=ref ;;
   C24|C25) PKG=ref_repl; KIND=ref ;;
-  C07|C17|C18|C26|C32) PKG=concmon; KIND=conc ;;
-  C01|C02|C03|C04|C05|C06|C34|C35) PKG=crashlab; KIND=crash ;;
+  C17|C18|C26|C32) PKG=concmon; KIND=conc ;;
+  C01|C02|C03|C04|C05|C06|C07|C34|C35) PKG=crashlab; KIND=crash ;;
   C16) PKG=fsguard; KIND=fs ;;
   *) echo "unknown property $ID" >&2; exit 2 ;;
 esac
